@@ -21,7 +21,8 @@ KINDS = ['panel', 'panel', 'assembly', 'bay', 'shell']
 def plan(tier):
     n = 160 if tier == 'quick' else 4000
     return dict(sanitize={'extensions': ['compmech.panel.models.clt_bardell_field', 'compmech.conecyl.clpt.clpt_commons_bc1', 'compmech.conecyl.clpt.clpt_commons_bc3', 'compmech.conecyl.clpt.clpt_commons_bc4', 'compmech.conecyl.fsdt.fsdt_commons_bc1'], 'n_cases': 80}, n_cases=n, shards=16, min_nontrivial=n // 3,
-                min_tags={'kind:panel': n // 5, 'kind:assembly': n // 10, 'kind:bay': n // 10, 'kind:shell': n // 10},
+                min_tags={'kind:panel': n // 5, 'kind:assembly': n // 10, 'kind:bay': n // 10, 'kind:shell': n // 10, 'pattern:query_plot_query': n // 40},
+                min_hits={'plot_calls': n // 3},      # plots that cannot be drawn are dropped from the histories: too few drawn plots make the run inconclusive
                 watchdog_s=2400 if tier == 'quick' else 14000,
                 rule='object definitions (panels of the flat / cylindrical models with loads, forces, aerodynamic data; assemblies with penalty '
                      'connections; stiffened bays with the three stiffener kinds; shells of several models) x random call histories of length 3..%d over '
@@ -282,6 +283,22 @@ def run_case(rng, tier, idx):
     word = [ops[int(rng.integers(0, len(ops)))] for _ in range(L)]
     if rng.random() < 0.5 and L >= 2:
         word[-1] = word[0]           # ask the same quantity twice with other calls in between
+    # a third of the histories contain the everyday post-processing pattern: a field query on the default grid, a (deformed)
+    # plot, the same query again
+    byname = {o.name: o for o in ops}
+    sides = [o for o in ops if o.kind == 'side']
+    grids = [o for o in ops if o.name.endswith('(grid)')]
+    if sides and grids and rng.random() < 0.35:
+        q = grids[int(rng.integers(0, len(grids)))]
+        # a plot of the same region as the query (skin / stiffener), deformed ones preferred
+        region = 'stiffener' if 'stiffener' in q.name else ('skin' if 'skin' in q.name else '')
+        same = [o for o in sides if region in o.name and ('stiffener' in o.name) == ('stiffener' in q.name)] or sides
+        deformed = [o for o in same if 'deformed' in o.name]
+        pool = deformed if (deformed and rng.random() < 0.7) else same
+        pl = pool[int(rng.integers(0, len(pool)))]
+        at = int(rng.integers(0, len(word) + 1))
+        word[at:at] = [q, pl, q]
+        c.tag('pattern:query_plot_query')
     c.desc['history'] = [o.name for o in word]
     c.key = None
     # references: each distinct op first on a fresh object
